@@ -31,6 +31,8 @@ func c09env(c *h.Ctx, idx int, staged bool, assign string, r *h.Rand, special bo
 	}
 	want := map[string]string{}
 	wantLevel := map[string]string{}
+	want2 := map[string]string{} // expectation in a second variation that defines none of the names
+	want2Level := map[string]string{}
 	var names []string
 	for mask := 1; mask < 1<<uint(nlev); mask++ {
 		name := fmt.Sprintf("VN_%s_%02d", assign, mask)
@@ -69,6 +71,9 @@ func c09env(c *h.Ctx, idx int, staged bool, assign string, r *h.Rand, special bo
 				top = lv
 				want[name] = val
 				wantLevel[name] = envLevels[lv]
+				if lv != 5 {
+					want2[name], want2Level[name] = val, envLevels[lv]
+				}
 			}
 		}
 	}
@@ -79,13 +84,13 @@ func c09env(c *h.Ctx, idx int, staged bool, assign string, r *h.Rand, special bo
 	}
 	h.WriteFile(real+"/vars.env", strings.Join(ef, "\n")+"\n")
 	format, argv := "ENV", ""
-	all := append(append([]string{}, names...), "PARENT_ONLY", "TASK_NAME")
+	all := append(append([]string{}, names...), "PARENT_ONLY", "TASK_NAME", "VOTHER")
 	for _, k := range all {
 		format += " " + k + "=[%s]"
 		argv += fmt.Sprintf(" \"$%s\"", k)
 	}
 	cmd := fmt.Sprintf("printf '%s\\n'%s >> '%s'", format, argv, trace)
-	tdef := gen.OM{{K: "command", V: []interface{}{cmd}}, {K: "context", V: "cx"}, {K: "env_file", V: "vars.env"}, {K: "env", V: defs[3]}, {K: "variations", V: []interface{}{gen.FromStrMap(defs[5])}}}
+	tdef := gen.OM{{K: "command", V: []interface{}{cmd}}, {K: "context", V: "cx"}, {K: "env_file", V: "vars.env"}, {K: "env", V: defs[3]}, {K: "variations", V: []interface{}{gen.FromStrMap(defs[5]), gen.OM{{K: "VOTHER", V: "second-variation"}}}}}
 	cfg := gen.OM{
 		{K: "contexts", V: gen.OM{{K: "cx", V: gen.OM{{K: "env", V: defs[1]}}}}},
 		{K: "tasks", V: gen.OM{{K: "the-task", V: tdef}}},
@@ -109,11 +114,31 @@ func c09env(c *h.Ctx, idx int, staged bool, assign string, r *h.Rand, special bo
 		c.Violate("cli-crash/"+h.TopFrame(string(res.Stderr)), "taskctl died: "+how, cas)
 		return
 	}
-	if res.Exit != 0 || len(got) != 1 {
-		c.Violate("env-run-failed", fmt.Sprintf("exit %d, %d trace lines: %s", res.Exit, len(got), tail(stripANSI(string(res.Stderr)), 300)), cas)
+	if res.Exit != 0 || len(got) != 2 {
+		c.Violate("env-run-failed", fmt.Sprintf("exit %d, %d trace lines (one per variation expected): %s", res.Exit, len(got), tail(stripANSI(string(res.Stderr)), 300)), cas)
 		return
 	}
 	kv := parseKV(got[0])
+	kv2 := parseKV(got[1])
+	if kv["VOTHER"] != "" || kv2["VOTHER"] != "second-variation" {
+		c.Violate("env-variation-order", fmt.Sprintf("variations not run in declared order / with their own values: VOTHER=%q then %q", kv["VOTHER"], kv2["VOTHER"]), cas)
+	}
+	for _, n := range names {
+		// in the second variation the name is not defined by the current variation: the next level decides
+		if kv2[n] != want2[n] {
+			from := "?"
+			for lv := 0; lv < 6; lv++ {
+				if v, ok := defs[lv][n]; ok && v == kv2[n] {
+					from = envLevels[lv]
+				}
+			}
+			lvl := want2Level[n]
+			if lvl == "" {
+				lvl = "nothing"
+			}
+			c.Violate(fmt.Sprintf("env-precedence/second-variation/%s-beats-%s", from, lvl), fmt.Sprintf("second variation (does not define %s): command saw %q, the statement requires %q [staged=%v]", n, kv2[n], want2[n], staged), cas)
+		}
+	}
 	for _, n := range names {
 		c.Count("names_checked", 1)
 		if kv[n] != want[n] {
@@ -226,6 +251,59 @@ func c09dir(c *h.Ctx, idx int, mask int, taskForm string, fromSub, staged bool) 
 	}
 }
 
+// c09dirTemplates: the same dir template under different variable values within one invocation
+// (two stages of one task with different stage variables, two tasks sharing the template).
+func c09dirTemplates(c *h.Ctx, idx int, fromSub bool) {
+	dir := caseDir(c, fmt.Sprintf("c09t.%d", idx))
+	defer os.RemoveAll(dir)
+	real, _ := filepath.EvalSymlinks(dir)
+	trace := real + "/trace"
+	for _, d := range []string{"svc/api", "svc/web", "svc/db", "sub/deeper"} {
+		os.MkdirAll(real+"/"+d, 0o755)
+	}
+	pw := func(tag string) string {
+		return fmt.Sprintf("printf '%s:{{.Svc}}=[%%s]\\n' \"$(pwd)\" >> '%s'", tag, trace)
+	}
+	mkTask := func(svc string) gen.OM {
+		t := gen.OM{{K: "dir", V: "{{.Root}}/svc/{{.Svc}}"}, {K: "before", V: []interface{}{pw("before")}}, {K: "command", V: []interface{}{pw("cmd")}}, {K: "after", V: []interface{}{pw("after")}}}
+		if svc != "" {
+			t.Set("variables", gen.OM{{K: "Svc", V: svc}})
+		}
+		return t
+	}
+	cfg := gen.OM{
+		{K: "tasks", V: gen.OM{{K: "shared", V: mkTask("")}, {K: "own-db", V: mkTask("db")}}},
+		{K: "pipelines", V: gen.OM{{K: "p", V: []interface{}{
+			gen.OM{{K: "name", V: "one"}, {K: "task", V: "shared"}, {K: "variables", V: gen.OM{{K: "Svc", V: "api"}}}},
+			gen.OM{{K: "name", V: "two"}, {K: "task", V: "shared"}, {K: "variables", V: gen.OM{{K: "Svc", V: "web"}}}, {K: "depends_on", V: []interface{}{"one"}}},
+			gen.OM{{K: "name", V: "three"}, {K: "task", V: "own-db"}, {K: "depends_on", V: []interface{}{"two"}}},
+		}}}},
+	}
+	h.WriteFile(real+"/tasks.yaml", gen.YAML(cfg))
+	cwd := real
+	if fromSub {
+		cwd = real + "/sub/deeper"
+	}
+	res := tc{Dir: cwd}.run(c, "-o", "raw", "p")
+	c.Eval(1)
+	got := lines(h.ReadFile(trace))
+	cas := map[string]interface{}{"yaml": gen.YAML(cfg), "cwd": cwd, "trace": got, "exit": res.Exit, "stderr": tail(stripANSI(string(res.Stderr)), 400)}
+	if res.Exit != 0 || len(got) != 9 {
+		c.Violate("dir-run-failed", fmt.Sprintf("exit %d, trace %v", res.Exit, got), cas)
+		return
+	}
+	for _, ln := range got {
+		for k, v := range parseKV(ln) {
+			svc := k[strings.IndexByte(k, ':')+1:]
+			c.Count("pwd_checked", 1)
+			if v != real+"/svc/"+svc {
+				c.Violate("dir-precedence/template-rendered-with-other-values", fmt.Sprintf("%s ran in %q, its dir template renders to %q", k, v, real+"/svc/"+svc), cas)
+			}
+		}
+	}
+	c.Nontrivial(fmt.Sprint("dirtemplate", fromSub))
+}
+
 func c09(c *h.Ctx) {
 	c.Rule = "CLI with a controlled parent environment and empty $HOME: every non-empty subset of the six levels (63, stage runs) and of the five levels (31, direct runs) defines its own name, each under value assignments ascending / descending / seeded-shuffled with level (so the winner sorts above and below the losers); dir: every subset of {stage, task ({{.Root}} form and literal), context} x started in the project root / in a sub-directory, pwd in before, each command and after. non-trivial = every distinct (name, subset, winner value) / dir combination"
 	c.Assumptions = []string{"names defined only by taskctl itself (ARGS, *_OUTPUT) are not examined", "paths are compared after EvalSymlinks"}
@@ -267,6 +345,7 @@ func c09(c *h.Ctx) {
 			}
 		}
 	}
+	jobs = append(jobs, func() { c09dirTemplates(c, 0, false) }, func() { c09dirTemplates(c, 1, true) })
 	h.Par(len(jobs), 16, func(i int) { jobs[i]() })
 }
 
